@@ -13,6 +13,15 @@
 //! Quiescence: time is paused, so `sleep(1ns)` / `timeout(1ns, ..)` completes exactly when every
 //! task is idle; one input is therefore fully processed before the next is sent.
 //!
+//! Environment inputs: "drop_handles" drops every handle through which the downlink can be written
+//! to (client: the action / set senders, so run_io falls into its read-only mode; hosted: the
+//! Map/Value/EventDownlinkHandle, so the write stream terminates), "out_fail" drops the reader of
+//! the downlink's output channel (client: the next flush fails; hosted: the reader is dropped and,
+//! because a failed write makes the *agent* reconnect the downlink - outside this model - the
+//! harness issues no further own writes).  With cfg.env_settle = false they are not followed by a
+//! quiescence barrier, so the task sees them together with the next input ("while notifications
+//! are still queued").
+//!
 //! Abstract symbols (keys 1..3, values 1..3) are concretised from `cfg.pool` and mapped back.
 use bytes::BytesMut;
 use futures::SinkExt;
@@ -196,15 +205,20 @@ enum ClientWrites {
     None,
 }
 
-async fn run_client(kind: &str, ewns: bool, tou: bool, pool: Arc<Pool>, acts: &[Value]) -> Value {
+fn is_env(a: &Value) -> bool {
+    matches!(a["k"].as_str(), Some("drop_handles") | Some("out_fail"))
+}
+
+async fn run_client(kind: &str, ewns: bool, tou: bool, env_settle: bool, pool: Arc<Pool>, acts: &[Value]) -> Value {
     let rec = Rec::new(pool.clone());
     let config = DownlinkConfig {
         events_when_not_synced: ewns,
         terminate_on_unlinked: tou,
         buffer_size: NonZeroUsize::new(1024).unwrap(),
     };
-    let (mut writer, in_rx, out_tx, _out_rx) = channels();
-    let (task, writes) = match kind {
+    let (mut writer, in_rx, out_tx, out_rx) = channels();
+    let mut out_rx = Some(out_rx);
+    let (task, mut writes) = match kind {
         "map" => {
             let lc = BasicMapDownlinkLifecycle::<i32, String>::default()
                 .with(rec.clone())
@@ -265,6 +279,16 @@ async fn run_client(kind: &str, ewns: bool, tou: bool, pool: Arc<Pool>, acts: &[
         if let Some(n) = notification(kind, a, &pool) {
             // a terminated task has dropped its reader: the frame is then simply undeliverable
             let _ = writer.send(n).await;
+        } else if is_env(a) {
+            if a["k"] == "drop_handles" {
+                writes = ClientWrites::None;
+            } else {
+                out_rx = None;
+            }
+            if !env_settle {
+                obs.push(json!({"cbs": rec.take(), "done": task.is_finished()}));
+                continue;
+            }
         } else {
             match (&writes, a["k"].as_str().unwrap()) {
                 (ClientWrites::Map(tx), _) => {
@@ -281,6 +305,7 @@ async fn run_client(kind: &str, ewns: bool, tou: bool, pool: Arc<Pool>, acts: &[
         settle().await;
         obs.push(json!({"cbs": rec.take(), "done": task.is_finished()}));
     }
+    drop(out_rx);
     let result = if task.is_finished() {
         match task.await {
             Ok(Ok(())) => "ok".to_string(),
@@ -501,12 +526,12 @@ async fn drive_hosted(chan: &mut BoxDownlinkChannel<FakeAgent>, cap: &Capture, a
     }
 }
 
-async fn run_hosted(kind: &str, ewns: bool, tou: bool, pool: Arc<Pool>, acts: &[Value]) -> Value {
+async fn run_hosted(kind: &str, ewns: bool, tou: bool, env_settle: bool, pool: Arc<Pool>, acts: &[Value]) -> Value {
     let rec = Rec::new(pool.clone());
     let agent = FakeAgent;
     let cap = Capture::default();
     let lc = HostedLc(rec.clone());
-    let mut writes = match kind {
+    let mut writes = Some(match kind {
         "map" => {
             let config = MapDownlinkConfig { events_when_not_synced: ewns, terminate_on_unlinked: tou };
             let open = OpenMapDownlinkAction::<i32, String, HashMap<i32, String>, _>::new(addr(), lc, config);
@@ -522,17 +547,30 @@ async fn run_hosted(kind: &str, ewns: bool, tou: bool, pool: Arc<Pool>, acts: &[
             let open = OpenEventDownlinkAction::<String, _>::new(addr(), lc, config, false);
             HostedWrites::Event(run_action(open, &cap, &agent))
         }
-    };
+    });
     let factory = cap.factory.borrow_mut().take().expect("the open action registered no downlink");
-    let (mut writer, in_rx, out_tx, _out_rx) = channels();
+    let (mut writer, in_rx, out_tx, out_rx) = channels();
+    let mut out_rx = Some(out_rx);
     let mut chan = factory.create_box(&agent, out_tx, in_rx);
     let mut done = drive_hosted(&mut chan, &cap, &agent).await;
     let mut obs = Vec::with_capacity(acts.len());
     for a in acts {
         if let Some(n) = notification(kind, a, &pool) {
             let _ = writer.send(n).await;
-        } else {
-            match (&mut writes, a["k"].as_str().unwrap()) {
+        } else if is_env(a) {
+            if a["k"] == "drop_handles" {
+                writes = None;
+            } else {
+                out_rx = None;
+            }
+            if !env_settle {
+                obs.push(json!({"cbs": rec.take(), "done": done}));
+                continue;
+            }
+        } else if out_rx.is_none() {
+            // a write into the failed output would make the agent reconnect the downlink: not modelled
+        } else if let Some(writes) = writes.as_mut() {
+            match (writes, a["k"].as_str().unwrap()) {
                 (HostedWrites::Map(h), "w_update") => {
                     let _ = h.update(pool.key(&a["key"]), pool.val(&a["val"]));
                 }
@@ -565,6 +603,7 @@ fn run_case(case: &Value) -> Value {
     let imp = cfg["impl"].as_str().expect("cfg.impl").to_string();
     let ewns = cfg["ewns"].as_bool().expect("cfg.ewns");
     let tou = cfg["tou"].as_bool().expect("cfg.tou");
+    let env_settle = cfg["env_settle"].as_bool().unwrap_or(true);
     let pool = pool(cfg["pool"].as_u64().unwrap_or(0));
     let acts = case["acts"].as_array().expect("acts").clone();
     let rt = tokio::runtime::Builder::new_current_thread()
@@ -574,9 +613,9 @@ fn run_case(case: &Value) -> Value {
         .expect("runtime");
     rt.block_on(async move {
         if imp == "client" {
-            run_client(&kind, ewns, tou, pool, &acts).await
+            run_client(&kind, ewns, tou, env_settle, pool, &acts).await
         } else {
-            run_hosted(&kind, ewns, tou, pool, &acts).await
+            run_hosted(&kind, ewns, tou, env_settle, pool, &acts).await
         }
     })
 }
